@@ -142,17 +142,18 @@ func (p *Proc) readSexp() (string, error) {
 
 // Session is an incremental conversation: assertions are pushed along a path.
 type Session struct {
-	P       *Proc
-	Em      *Emitter
-	St      *Store
-	Backend Backend
-	Queries int
-	SatN    int
-	UnsatN  int
-	UnkN    int
-	Time    time.Duration
-	Errors  []string
-	depth   int
+	P         *Proc
+	Em        *Emitter
+	St        *Store
+	Backend   Backend
+	Queries   int
+	SatN      int
+	UnsatN    int
+	UnkN      int
+	Time      time.Duration
+	Errors    []string
+	depth     int
+	TimeoutMs int
 }
 
 func NewSession(b Backend, st *Store, timeoutMs int, log io.Writer) (*Session, error) {
@@ -160,7 +161,7 @@ func NewSession(b Backend, st *Store, timeoutMs int, log io.Writer) (*Session, e
 	if err != nil {
 		return nil, err
 	}
-	s := &Session{P: p, St: st, Backend: b}
+	s := &Session{P: p, St: st, Backend: b, TimeoutMs: timeoutMs}
 	s.Em = NewEmitter(st)
 	hdr := "(set-option :print-success false)\n(set-option :produce-models true)\n(set-option :global-declarations true)\n" + b.TimeoutOpt(timeoutMs)
 	if err := p.send(hdr); err != nil {
@@ -174,6 +175,7 @@ func (s *Session) Reset(st *Store, timeoutMs int) error {
 	s.St = st
 	s.Em = NewEmitter(st)
 	s.depth = 0
+	s.TimeoutMs = timeoutMs
 	return s.P.send("(reset)\n(set-option :print-success false)\n(set-option :produce-models true)\n(set-option :global-declarations true)\n" + s.Backend.TimeoutOpt(timeoutMs))
 }
 
@@ -195,8 +197,37 @@ func (s *Session) Assert(t *Term) error {
 	return s.P.send(pre + "(assert " + ex + ")\n")
 }
 
-// Check runs check-sat on the current assertion stack.
+// Check runs check-sat on the current assertion stack. A solver that does not
+// answer within twice its own timeout is killed (the verdict is Unknown).
 func (s *Session) Check() (Result, error) {
+	if s.P.dead {
+		s.UnkN++
+		return Unknown, fmt.Errorf("solver %s is gone", s.P.Name)
+	}
+	type answer struct {
+		r   Result
+		err error
+	}
+	ch := make(chan answer, 1)
+	go func() {
+		r, err := s.check()
+		ch <- answer{r, err}
+	}()
+	limit := time.Duration(2*s.TimeoutMs+2000) * time.Millisecond
+	select {
+	case a := <-ch:
+		return a.r, a.err
+	case <-time.After(limit):
+		s.P.dead = true
+		s.P.cmd.Process.Kill()
+		<-ch
+		s.UnkN++
+		s.Errors = append(s.Errors, "solver did not honour its timeout and was killed")
+		return Unknown, fmt.Errorf("solver %s killed after %v", s.P.Name, limit)
+	}
+}
+
+func (s *Session) check() (Result, error) {
 	t0 := time.Now()
 	if err := s.P.send("(check-sat)\n"); err != nil {
 		return Unknown, err
